@@ -70,6 +70,15 @@ def build_harness(name="harness", race=False):
     return time.time() - t0
 
 
+def repo_builds_plain():
+    """does /repo build without the verif tag (both modules)?"""
+    for mod in (REPO, os.path.join(REPO, "client")):
+        p = subprocess.run(["go", "build", "./..."], cwd=mod, env=GOENV, capture_output=True, text=True, timeout=900)
+        if p.returncode != 0:
+            return False
+    return True
+
+
 def run_harness(cmd, cases, timeout=600, extra_args=(), binary="harness"):
     """Run one harness sub-command on a list of JSON-able cases; returns the list of observations."""
     if not cases:
